@@ -29,7 +29,7 @@ the property's quick check against the changed tree (`VERIF_REPO=<worktree> ./ch
 rounds were run for every claimed property; the authors of rounds 2, 3 and 4 were told what the earlier
 rounds had changed and had to pick a different mechanism (three round-3 authors nevertheless arrived
 independently at the same change for C28, C32 and C33: a positional fast path in
-`VerifyMultiSignature` that ignores the already-matched mask). Where a check missed a change, the generator or the oracle was
+`VerifyMultiSignature` that ignores the already-matched mask). A fifth round `-r5` covers 18 properties (14 in the previous session, then C03, C27, C33 and C41: all four caught at the first attempt; C27's was caught late, which led to `TestC27_RelatedLists`). Where a check missed a change, the generator or the oracle was
 strengthened (never loosened, never special-cased to the seed) until the change was killed in the
 quick tier at seeds 1, 2 and 3 while the unchanged tree stayed green; those are marked "caught after
 strengthening" with what was added.
